@@ -183,6 +183,49 @@ def run_driver_parallel(driver, outdir, seed0, runs, nproc, args, deadline=600):
     return records
 
 
+def run_tlc_replay(outdir, seed0, nbeh, nproc, deadline=1800):
+    """spec -> impl: TLC (simulation mode) generates complete behaviours of RainConc
+    (spec/RainConc_Gen.tla); the `sched` driver replays each against the real code."""
+    shutil.rmtree(outdir, ignore_errors=True)
+    os.makedirs(outdir, exist_ok=True)
+    rc, out, wall = tlc(f"gen-{seed0}", "RainConc_Gen.tla", "RainConc_Gen.cfg", workers=1, timeout=600,
+                        extra=["-simulate", f"num={nbeh}", "-depth", "250", "-seed", str(seed0)], heap="2g")
+    scheds = []
+    for line in out.splitlines():
+        m = re.match(r'<<"@@SCHED", "(.*)">>$', line)
+        if m:
+            js = m.group(1).encode().decode("unicode_escape")
+            if js not in scheds:
+                scheds.append(js)
+    if not scheds:
+        raise ToolError("TLC generated no behaviours of RainConc_Gen:\n" + "\n".join(out.splitlines()[-20:]))
+    nproc = max(1, min(nproc, len(scheds)))
+    jobs = []
+    for i in range(nproc):
+        part = scheds[i::nproc]
+        f = f"{outdir}/schedules_{i}.ndjson"
+        open(f, "w").write("\n".join(part) + "\n")
+        jobs.append((i, f))
+
+    def one(job):
+        i, f = job
+        sub = f"{outdir}/p{i}/part1"
+        cmd = [BIN, "sched", "--seed", str(seed0 + i), "--schedules", f, "--out", sub]
+        r = sh(cmd, timeout=deadline)
+        res_path = sub + "/results.json"
+        if not os.path.exists(res_path):
+            raise ToolError(f"driver produced no results: {' '.join(cmd)}\n{r.stdout[-2000:]}")
+        if r.returncode not in (0, 3):
+            raise ToolError(f"driver crashed rc={r.returncode}: {' '.join(cmd)}\n{r.stdout[-2000:]}")
+        return json.load(open(res_path))["runs"]
+
+    records = []
+    with cf.ThreadPoolExecutor(max_workers=nproc) as ex:
+        for rs in ex.map(one, jobs):
+            records += rs
+    return records, len(scheds)
+
+
 def validate_traces(files, module, cfg, nproc, tag, timeout=900):
     """Validate trace files against a trace specification. Returns (runs, rejects)."""
 
@@ -345,13 +388,16 @@ PROPS = {
                   ("Bug_NewIdNotAtomic", "MC_RainCache.tla", "MC_RainCache_small.cfg", "UniqueIds"),
                   ("Bug_KeyWithoutId", "MC_RainCache.tla", "MC_RainCache_small.cfg", "ReadsRightBlock")],
         trace=CONC_TRACE,
-        work=[dict(driver="sched", args=["--all"], quick=2, thorough=12, final_rc3=True)]),
+        work=[dict(driver="sched", args=["--all"], quick=2, thorough=12, final_rc3=True),
+              # spec -> impl: behaviours of RainConc generated by TLC, replayed thread step by step
+              dict(driver="sched", gen="tlc", args=[], quick=150, thorough=4000, final_rc3=True)]),
     "C06": dict(
         design=[(CONC, ["MC_RainConc_small.cfg"], ["MC_RainConc_small.cfg"])],
         switches=[("Bug_PublishEarly", CONC, "MC_RainConc_small.cfg", None),
                   ("Bug_SnapshotUnlocked", CONC, "MC_RainConc_small.cfg", None)],
         trace=CONC_TRACE,
-        work=[dict(driver="sched", args=["--all"], quick=2, thorough=12, final_rc3=True)]),
+        work=[dict(driver="sched", args=["--all"], quick=2, thorough=12, final_rc3=True),
+              dict(driver="sched", gen="tlc", args=[], quick=150, thorough=4000, final_rc3=True)]),
     "C09": dict(
         design=[(CONC, ["MC_RainConc_small.cfg"], ["MC_RainConc_small.cfg"]),
                 ("MC_RainManual.tla", ["MC_RainManual.cfg"], ["MC_RainManual.cfg", "MC_RainManual_big.cfg"])],
@@ -470,8 +516,13 @@ def check_prop(prop, tier, seed):
             continue
         outdir = f"{OUT}/{prop}-{tier}-{wi}"
         seed0 = PROP_SEED_BASE[prop] + wi * 500 + seed * 100000
-        r = run_driver_parallel(w["driver"], outdir, seed0, runs, min(nproc, runs), w["args"],
-                                deadline=1800 if tier == "quick" else 14400)
+        if w.get("gen") == "tlc":
+            r, nsched = run_tlc_replay(outdir, seed0, runs, nproc,
+                                       deadline=1800 if tier == "quick" else 14400)
+            extra["tlc_behaviours_replayed"] = extra.get("tlc_behaviours_replayed", 0) + nsched
+        else:
+            r = run_driver_parallel(w["driver"], outdir, seed0, runs, min(nproc, runs), w["args"],
+                                    deadline=1800 if tier == "quick" else 14400)
         recs += r
         tr = w.get("trace") or conf.get("trace") or ("RainCore_Trace.tla", "RainCore_Trace.cfg")
         groups.setdefault(tr, [])
@@ -659,6 +710,11 @@ def replay(path):
         if rp.get("reopen_heavy"):
             cmd.append("--reopen-heavy")
         r = sh(cmd, timeout=900)
+    elif rp["driver"] == "sched" and rp.get("schedule"):
+        os.makedirs(outdir, exist_ok=True)
+        sf = f"{outdir}/schedule.ndjson"
+        open(sf, "w").write(json.dumps(rp["schedule"]) + "\n")
+        r = sh([BIN, "sched", "--seed", str(rp["seed"]), "--schedules", sf, "--out", outdir], timeout=900)
     elif rp["driver"] == "sched":
         r = sh([BIN, "sched", "--seed", str(rp["seed"]), "--runs", "1", "--all", "--scenario",
                 rp["scenario"], "--out", outdir], timeout=900)
